@@ -1,3 +1,3 @@
 #include "sim.h"
-extern const engine_t selftest_engine, netsim_engine, strsim_engine, mbufsim_engine, listsim_engine, mapsim_engine, vectorsim_engine;
-const engine_t *engines[] = { &selftest_engine, &netsim_engine, &strsim_engine, &mbufsim_engine, &listsim_engine, &mapsim_engine, &vectorsim_engine, 0 };
+extern const engine_t selftest_engine, netsim_engine, strsim_engine, mbufsim_engine, listsim_engine, mapsim_engine, vectorsim_engine, protosim_c05_engine, protosim_c06_engine;
+const engine_t *engines[] = { &selftest_engine, &netsim_engine, &strsim_engine, &mbufsim_engine, &listsim_engine, &mapsim_engine, &vectorsim_engine, &protosim_c05_engine, &protosim_c06_engine, 0 };
